@@ -945,6 +945,11 @@ static size_t ZDICT_addEntropyTablesFromBuffer_advanced(
     int const compressionLevel = (params.compressionLevel == 0) ? ZSTD_CLEVEL_DEFAULT : params.compressionLevel;
     U32 const notificationLevel = params.notificationLevel;
     size_t hSize = 8;
+    size_t const minContentSize = (size_t)ZDICT_maxRep(repStartValue);
+
+    /* the content sits at the end of dictBuffer, the header is written at its start */
+    if (dictContentSize > dictBufferCapacity) return ERROR(dstSize_tooSmall);
+    if (dictBufferCapacity < hSize + minContentSize) return ERROR(dstSize_tooSmall);
 
     /* calculate entropy tables */
     DISPLAYLEVEL(2, "\r%70s\r", "");   /* clean display line */
@@ -957,6 +962,9 @@ static size_t ZDICT_addEntropyTablesFromBuffer_advanced(
         if (ZDICT_isError(eSize)) return eSize;
         hSize += eSize;
     }
+    /* the repeat offsets written in the header must fit in the remaining content */
+    if (hSize + minContentSize > dictBufferCapacity) return ERROR(dstSize_tooSmall);
+    if (dictContentSize < minContentSize) return ERROR(srcSize_wrong);
 
     /* add dictionary header (after entropy tables) */
     MEM_writeLE32(dictBuffer, ZSTD_MAGIC_DICTIONARY);
